@@ -40,6 +40,7 @@ type Contract struct {
 	Uses     []string             // lemmas assumed in this function's VCs
 	FnParamReq map[string][]*Clause // obligations at every call of a function-typed parameter
 	CallSites  map[string][]*Clause // obligations at every call of a named function
+	CallSiteEns map[string][]*Clause // assumptions about the results of calls of a named (external) function, listed as assumptions
 	FnParamPure map[string]bool     // function-typed parameters/fields assumed to be effect-free
 	FnParamCounts map[string]string // function value name -> ghost counter incremented by each call
 	Trusted  bool // contract assumed at call sites, body not verified
@@ -428,12 +429,22 @@ func (e *Engine) LoadContractFile(file, pkgPath string) error {
 				// variables visible)
 				fnm, r1 := splitWord(rest)
 				w, r2 := splitWord(r1)
-				if w != "requires" {
-					return fail(fmt.Errorf("callsite <func> requires <expr>"))
+				if w != "requires" && w != "ensures" {
+					return fail(fmt.Errorf("callsite <func> requires|ensures <expr>"))
 				}
 				c, err := parseClause(r2)
 				if err != nil {
 					return fail(err)
+				}
+				if w == "ensures" {
+					// callsite <FuncName> ensures <expr>: assumed about the
+					// results (r0..) of every call of that function made by the
+					// verified function; reported as an assumption
+					if cur.CallSiteEns == nil {
+						cur.CallSiteEns = map[string][]*Clause{}
+					}
+					cur.CallSiteEns[fnm] = append(cur.CallSiteEns[fnm], c)
+					break
 				}
 				if cur.CallSites == nil {
 					cur.CallSites = map[string][]*Clause{}
